@@ -206,3 +206,39 @@ vproof!(c13_pkesk_match_v6, 36, {
     });
     assert!(p6.match_identity(&*key) == (anon || pf == kf), "C18/C13: v6 PKESK recipient matching (fingerprint or absent)");
 });
+
+/// UNREGISTERED PROBE (times out at 600 s / 20 GB: num-bigint-dig BigUint is a SmallVec of u64 digits).
+/// v2/v3 RSA key id = low 64 bits of the modulus (RFC 9580 5.5.4.1), for a modulus of L octets
+fn keyid_v3<const L: usize>() {
+    let n: [u8; L] = kani::any();
+    kani::assume(n[0] != 0);
+    let nn = rsa::BigUint::from_bytes_be(&n[..]);
+    let e = rsa::BigUint::from(3u32);
+    let key = rsa::RsaPublicKey::new_unchecked(nn, e);
+    let inner = core::mem::ManuallyDrop::new(PubKeyInner {
+        version: KeyVersion::V3,
+        algorithm: PublicKeyAlgorithm::RSA,
+        created_at: Timestamp::from_secs(0),
+        legacy_v3_expiration_days: None,
+        public_params: PublicParams::RSA(crate::types::RsaPublicParams { key }),
+    });
+    let kid = inner.legacy_key_id();
+    let got: &[u8] = kid.as_ref();
+    let mut exp = [0u8; 8];
+    let mut i = 0;
+    while i < 8 {
+        if i < L {
+            exp[7 - i] = n[L - 1 - i];
+        }
+        i += 1;
+    }
+    let mut ok = got.len() == 8;
+    let mut j = 0;
+    while j < 8 {
+        ok = ok && got[j] == exp[j];
+        j += 1;
+    }
+    assert!(ok, "C13: v3 key id is not the low 64 bits of the RSA modulus");
+}
+vproof!(c13_keyid_v3_rsa_5, 12, { keyid_v3::<5>() });
+vproof!(c13_keyid_v3_rsa_9, 12, { keyid_v3::<9>() });
